@@ -47,6 +47,19 @@ Theorem C02_mulM_mulMInv_id_any_dof {X} (nd : X -> node (SpatialVec R) (Vec3 R) 
   Forall (fun r => snd r = d_f (dy (w_x (fst (fst r))))) (flatten (mulM_of_mulMInv KR AR nd dy t)).
 Proof. exact (mulM_mulMInv_id_pivots nd dy t). Qed.
 
+(** SECOND DIRECTION of "exact inverses" (uniqueness): whenever mobility accelerations ud leave a zero inverse-dynamics
+    residual under the applied forces, the forward-dynamics passes under those forces return exactly ud -- at every body
+    of every tree.  Together with C02_fd_then_rnea_zero_any_dof:  FD(forces) = ud  <->  ID(ud, forces) = 0. *)
+Theorem C02_rnea_zero_then_fd_returns_udot {X} (nd : X -> node (SpatialVec R) (Vec3 R) (SpInertia (T:=R))) (dy : X -> dyn R (SpatialVec R))
+    (ud : X -> list R) (t : tree X) :
+  (forall y, In y (flatten (abi_pass KR AR nd t)) ->
+     length (d_f (dy (fst y))) = length (n_H (nd (fst y))) /\ length (ud (fst y)) = length (n_H (nd (fst y))) /\ pivots_ok (a_D (snd y))) ->
+  Forall (fun r => snd r = map (fun _ => 0) (n_H (nd (fst (fst (fst r)))))) (flatten (rnea KR AR nd dy ud t)) ->
+  Forall (fun w => w_ud w = ud (w_x w)) (flatten (fd KR AR nd dy t)).
+Proof. exact (fd_unique_pivots nd dy ud t). Qed.
+Theorem C02_uniqueness_example : Forall (fun w => w_ud w = sl_ud (w_x w)) (flatten (fd KR AR sl_nd sl_dy sl_t)).
+Proof. exact sl_unique. Qed.
+
 (** explicit dof-3 instance (Ball, Gimbal, Translation, Planar, ... mobilizers): leading principal minors non-zero *)
 Theorem C02_gj_sym_inverse_3 a b c d e f :
   a <> 0 -> a * d - b * b <> 0 -> a * (d * f - e * e) - b * (b * f - e * c) + c * (b * e - d * c) <> 0 ->
@@ -65,5 +78,7 @@ Print Assumptions C02_D_block_symmetric.
 Print Assumptions C02_body_ok_any_dof.
 Print Assumptions C02_fd_then_rnea_zero_any_dof.
 Print Assumptions C02_mulM_mulMInv_id_any_dof.
+Print Assumptions C02_rnea_zero_then_fd_returns_udot.
+Print Assumptions C02_uniqueness_example.
 Print Assumptions C02_gj_sym_inverse_3.
 Print Assumptions C02_gj_example.
